@@ -537,6 +537,18 @@ fn answer(a: &[&str]) -> String {
             let items = match obj.get(sel_tag).map(|e| e.value()) { Some(Value::Sequence(sq)) => sq.items().len().to_string(), _ => "-".into() };
             match r { Ok(()) => format!("OK items={} attrs={}", items, obj.iter().count()), Err(e) => format!("ERR {} items={} attrs={}", e, items, obj.iter().count()).replace(' ', "_").replacen('_', " ", 1) }
         }
+        // parse_kw <kw,kw,...> -> "ALLRESOLVE <n>" if parse_tag(kw) == by_name(kw).tag for every given keyword, else "UNRESOLVED <kw>,..." (up to 8)
+        "parse_kw" => {
+            use dicom_core::dictionary::{DataDictionary, DataDictionaryEntry};
+            let mut bad: Vec<String> = Vec::new();
+            let mut n = 0;
+            for kw in a[1].split(',') {
+                n += 1;
+                let want = StandardDataDictionary.by_name(kw).map(|e| e.tag());
+                if want.is_none() || StandardDataDictionary.parse_tag(kw) != want { bad.push(kw.to_string()); }
+            }
+            if bad.is_empty() { format!("ALLRESOLVE {}", n) } else { format!("UNRESOLVED {}", bad.iter().take(8).cloned().collect::<Vec<_>>().join(",")) }
+        }
         // pdu_big <L>: write an A-ASSOCIATE-RQ holding one unknown user sub-item with L content bytes, then read the bytes back
         "pdu_big" => {
             use dicom_ul::pdu::{read_pdu, write_pdu, AssociationRQ, Pdu, PresentationContextProposed, UserVariableItem};
